@@ -117,7 +117,7 @@ struct LcSim : Harness {
 
   // ------------------------------------------------------------------------------------------ run state
   struct Mod { bool created = false, loaded = false, linked = false; MIR_module_t m = nullptr; std::string via; int iface = -1; };
-  struct Fn { const Json *def = nullptr; int mod = -1; MIR_item_t item = nullptr; void *addr_seen = nullptr; void *gen_addr = nullptr; int generated = 0, interp_runs = 0, addr_calls = 0; std::string text0; bool lazybb_entered = false; bool has_lt = false; int table_owner = 0 /* 0 none, 1 interp, 2 gen */; bool icode = false; };
+  struct Fn { const Json *def = nullptr; int mod = -1; MIR_item_t item = nullptr; void *addr_seen = nullptr; void *gen_addr = nullptr; int generated = 0, interp_runs = 0, addr_calls = 0;  bool lazybb_entered = false; bool has_lt = false; int table_owner = 0 /* 0 none, 1 interp, 2 gen */; bool icode = false; };
   MIR_context_t ctx = nullptr; std::vector<Mod> mods; std::map<std::string, std::vector<Fn>> fns;  // name -> definitions (C13: several)
   std::map<std::string, FuncInfo> sigs; const Json *prog_json = nullptr;
   bool gen_on = false, c2m_on = false, ext_loaded = false; int opt_level = 2;
@@ -311,7 +311,7 @@ struct LcSim : Harness {
     else if (o == "gen") do_gen(op, out);
     else if (o == "call" || o == "interp") do_call(op, out, o == "interp");
     else if (o == "out") { phase("MIR_output"); char *b = nullptr; size_t l = 0; FILE *f = open_memstream(&b, &l); MIR_output(ctx, f); fclose(f); th.u64(l); free(b); C->count("text_output"); }
-    else if (o == "outitem") { std::string n = op.size() > 1 ? op[1].s : ""; Fn *f = find_fn(n); if (f && f->item) { phase("MIR_output_item", n); check_text(*f, out, "outitem"); } }
+    else if (o == "outitem") { std::string n = op.size() > 1 ? op[1].s : ""; Fn *f = find_fn(n); if (f && f->item) { phase("MIR_output_item", n); std::string t = item_text(ctx, f->item); th.u64(t.size()); C->count("item_output"); } }
     else if (o == "write") { phase("MIR_write"); store.clear(); MIR_write_with_func(ctx, st_writer); th.u64(store.size()); C->count("binary_write"); }
   }
   // lazily generated code may call MIR_gen machinery later: never finish the generator while thunks still point at wrappers
@@ -360,20 +360,21 @@ struct LcSim : Harness {
     pending.clear(); C->count("link_steps");
     // public addresses and reference texts
     for (auto &kv : fns) for (auto &f : kv.second) if (f.item && mods[f.mod].linked) {
-      if (f.text0.empty()) f.text0 = norm_labels(item_text(ctx, f.item));
       if (f.addr_seen == nullptr && mods[f.mod].iface != 0) f.addr_seen = f.item->addr;
     }
     for (auto &p : reenter_name) { Fn *f = callable_fn(p.second); if (f && f->item && mods[f->mod].iface != 0) reenter_addr[p.first] = f->item->addr; }
     th.str("link"); th.u64((uint64_t) iface);
   }
 
-  void check_text(Fn &f, Outcome &out, const char *when) {
-    if (f.text0.empty()) return;
-    std::string t = norm_labels(item_text(ctx, f.item));
-    if (t != f.text0) {
-      size_t k = 0; while (k < t.size() && k < f.text0.size() && t[k] == f.text0[k]) k++;
-      size_t ls = f.text0.rfind('\n', k); ls = ls == std::string::npos ? 0 : ls + 1; size_t le = f.text0.find('\n', k); size_t le2 = t.find('\n', k);
-      out.fail("mir_text_changed", when, fmt("text of function %s differs from the text captured after its link step (%s): was '%s' now '%s'", f.def->gets("name").c_str(), when, f.text0.substr(ls, le - ls).c_str(), t.substr(std::min(ls, t.size()), le2 == std::string::npos ? std::string::npos : le2 - std::min(ls, t.size())).c_str()));
+  // T1: the MIR of a function as seen through the API (MIR_output_item) is the same before and after an event
+  std::string snap_text(Fn &f) { return norm_labels(item_text(ctx, f.item)); }
+  void check_text(Fn &f, const std::string &before, Outcome &out, const char *when) {
+    std::string t = snap_text(f);
+    if (t != before) {
+      size_t k = 0; while (k < t.size() && k < before.size() && t[k] == before[k]) k++;
+      size_t ls = before.rfind('\n', k); ls = ls == std::string::npos ? 0 : ls + 1; size_t le = before.find('\n', k); size_t ls2 = std::min(ls, t.size()), le2 = t.find('\n', k);
+      if (getenv("LCSIM_DUMP")) fprintf(stderr, "---- before:\n%s\n---- after:\n%s\n", before.c_str(), t.c_str());
+      out.fail("mir_text_changed", when, fmt("MIR_output_item text of function %s differs before and %s: was '%s' now '%s'", f.def->gets("name").c_str(), when, before.substr(ls, le == std::string::npos ? std::string::npos : le - ls).c_str(), t.substr(ls2, le2 == std::string::npos ? std::string::npos : le2 - ls2).c_str()));
     } else C->count("text_compared_equal");
   }
 
@@ -384,12 +385,13 @@ struct LcSim : Harness {
     if (!allow_interp_then_gen && f->interp_runs > 0 && f->generated == 0) return;  // MIR_interp(f) then generation of f: C03's finding
     if (!gen_on) { phase("MIR_gen_init"); MIR_gen_init(ctx); gen_on = true; MIR_gen_set_optimize_level(ctx, (unsigned) opt_level); }
     phase("MIR_gen", n);
+    std::string before = snap_text(*f);
     void *a = MIR_gen(ctx, f->item); C->count(f->generated ? "gen_repeated" : "gen_explicit"); if (!f->generated) f->table_owner = 2; f->generated++;
     if (f->gen_addr && f->gen_addr != a) out.fail("gen_address_changed", "MIR_gen", fmt("repeated MIR_gen(%s) returned %p, earlier %p", n.c_str(), a, f->gen_addr));
     f->gen_addr = a;
     if (a != f->item->addr) out.fail("gen_address_changed", "item_addr", fmt("MIR_gen(%s) returned %p but the item's public address is %p", n.c_str(), a, f->item->addr));
     if (f->addr_seen && f->addr_seen != f->item->addr) out.fail("public_address_changed", "gen", fmt("public address of %s changed from %p to %p", n.c_str(), f->addr_seen, f->item->addr));
-    check_text(*f, out, "after MIR_gen");
+    check_text(*f, before, out, "after MIR_gen");
     th.str("gen"); th.str(n.c_str());
   }
   bool allow_interp_then_gen = true, allow_lazybb_then_interp = true;
@@ -429,6 +431,12 @@ struct LcSim : Harness {
         return;
       }
     }
+    // snapshot the text of every function this execution will enter (lazy generation or interpretation may happen inside)
+    std::vector<std::pair<Fn *, std::string>> snaps;
+    if (mode == "C16" || mode == "C03") {
+      std::set<const Json *> seen;
+      for (auto d : model.entered) if (seen.insert(d).second && seen.size() <= 6) for (auto &kv : fns) for (auto &x : kv.second) if (x.def == d && x.item) snaps.push_back({&x, snap_text(x)});
+    }
     ext_log.clear(); ext_depth = 0; int64_t got;
     phase(interp ? "MIR_interp" : "call through address", n + fmt(" (iface %d, opt %d)", iface, opt_level));
     if (interp) {
@@ -447,7 +455,7 @@ struct LcSim : Harness {
     if (got != want) { out.fail("wrong_result", interp ? "interp" : fmt("iface%d", iface), fmt("%s(%s) via %s returned %lld, the program model says %lld", n.c_str(), args.empty() ? "" : std::to_string(args[0]).c_str(), interp ? "MIR_interp" : fmt("address (interface %d, opt %d)", iface, opt_level).c_str(), (long long) got, (long long) want)); return; }
     if (ext_log.size() != model.log.size() || !std::equal(ext_log.begin(), ext_log.end(), model.log.begin())) { out.fail("wrong_ext_log", interp ? "interp" : fmt("iface%d", iface), fmt("external-call log of %s differs from the model (%zu vs %zu calls)", n.c_str(), ext_log.size(), model.log.size())); return; }
     C->count("results_checked");
-    if (mode == "C16" || mode == "C03") check_text(*f, out, interp ? "after MIR_interp" : "after call");
+    for (auto &sp : snaps) { check_text(*sp.first, sp.second, out, interp ? "after MIR_interp" : "after a call through the public address"); if (out.violation) break; }
   }
 
   // ------------------------------------------------------------------------------------------ generation
@@ -527,6 +535,7 @@ struct LcSim : Harness {
       Json p = plan; Json ops = Json::array(); size_t nm = plan.at("prog").at("mods").size();
       auto push = [&](std::initializer_list<Json> l) { Json o = Json::array(); for (auto &x : l) o.push(x); ops.push(o); };
       push({"opt", level});
+      for (auto &op : plan.at("ops").a) if (op.k == Json::Arr && op.size() > 1 && (op[0].s == "scan" || op[0].s == "c2m" || op[0].s == "bin")) ops.push(op);  // same creation routes
       for (size_t mi = 0; mi < nm; mi++) { push({"scan", (long long) mi}); push({"load", (long long) mi}); }
       push({"link", 2, 0});
       p.set("ops", ops); p["knobs"].erase("reenter"); p["knobs"].set("placement", (int) P_PACKED_FAR);
